@@ -184,7 +184,7 @@ GATE = ("try", "match", "match-far", "isok", "bool", "plain-return")
 def _calls_of(F, key):
     """Workspace calls and state-changing (sink) calls of a function, with their success edges."""
     fn = F.fns[key]
-    ex = Exprs(fn)
+    ex = exprs_for(F, key)
     live = live_blocks(fn)
     calls = []
     for bi, t in F.calls(key):
@@ -213,9 +213,30 @@ def _recv_is_state(fn, t, ex):
     return bool(re.match(r"^arg\d+(\.[a-z_][a-z0-9_]*)+$", r))
 
 
+def exprs_for(F, key, depth=0):
+    """Expression slicer of a function; for a closure, upvars resolve into the enclosing function's expression trees."""
+    fn = F.fns[key]
+    ex = fn.get("_r9ex")
+    if ex is not None:
+        return ex
+    ex = Exprs(fn)
+    par = fn.get("parent")
+    if fn["kind"] == "Closure" and par in F.fns and depth < 3:
+        pfn = F.fns[par]
+        for b in pfn["blocks"]:
+            if b["cleanup"]:
+                continue
+            for st in b["st"]:
+                if st["k"] == "assign" and st["rv"].get("r") == "agg" and st["rv"].get("closure") and norm(st["rv"]["closure"]) == key:
+                    pex = exprs_for(F, par, depth + 1)
+                    ex.upvars = {str(i): pex.operand(o) for i, o in enumerate(st["rv"].get("ops", [])[:16])}
+    fn["_r9ex"] = ex
+    return ex
+
+
 def summarize(F, key):
     fn = F.fns[key]
-    ex = Exprs(fn)
+    ex = exprs_for(F, key)
     live = live_blocks(fn)
     rets = return_blocks(fn)
     is_res = is_result_ty(fn["locals"][0]["s"])
@@ -276,15 +297,16 @@ def summarize(F, key):
     # whose first use sees the initial value (`read(current); current = previous(current)`). Swapping the two statements shifts every
     # iteration by one: the first element is skipped and one element past the end is visited.
     phase = []
+    ws_now, _ws_base = ws_short_names(F)
     for bk, blst in sorted(by_key.items()):
-        if not any(c["ws"] for c in blst):
-            continue
+        if not any(c["ws"] for c in blst) or _short_callee(bk) not in ws_now:
+            continue  # (methods of std traits implemented for workspace types - `Iterator::next` - are plumbing: a `for` loop may become an adaptor chain)
         batoms = set()
         for c in blst:
             for a in c["t"]["args"][:6]:
                 batoms |= atoms(ex.operand(a))
         for ak, alst in sorted(by_key.items()):
-            if ak == bk or not any(c["ws"] for c in alst):
+            if ak == bk or not any(c["ws"] for c in alst) or _short_callee(ak) not in ws_now:
                 continue
             ashort = _short_callee(ak)
             if "call:" + ashort not in batoms or ashort == _short_callee(bk):
@@ -303,7 +325,8 @@ def summarize(F, key):
     # args of workspace sink calls, of std sink calls on shared state, and of workspace calls with two parameters of the same type (swap-prone)
     args = {}
     for bk, blst in sorted(by_key.items()):
-        keep = [c for c in blst if (c["sink"] and (c["ws"] or _recv_is_state(fn, c["t"], ex))) or (c["ws"] and _swap_prone(F, c["t"]))]
+        # ... and of workspace checks whose verdict decides the continuation (`has_more_work(header, header_head)`): a check keeps being applied to the same data
+        keep = [c for c in blst if (c["sink"] and (c["ws"] or _recv_is_state(fn, c["t"], ex))) or (c["ws"] and _swap_prone(F, c["t"])) or (c["ws"] and c["kind"] in GATE and c["kind"] != "plain-return")]
         if not keep:
             continue
         args[bk] = [[_stab(F, ex.operand(a)) + _narrow_op(fn, ex, a) for a in c["t"]["args"][:6]] for c in keep]
@@ -311,7 +334,7 @@ def summarize(F, key):
     conds = {}
     guards = []
     gcount = collections.Counter()
-    for bi, e, arms, els in switch_conditions(fn):
+    for bi, e, arms, els in switch_conditions(fn, ex=ex):
         if _is_try_switch(fn, bi):
             continue  # `?`: covered by the must/order summaries
         sig = cond_signature(F, e)
@@ -340,9 +363,15 @@ def summarize(F, key):
     # loops: the tests that decide whether a loop goes round again (`while a > b { .. }`): turned into a plain `if` the body runs at most once
     lt = loop_exit_tests(fn)
     loops = []
+    ok_rets_l = {b for b in rets if b not in dead}
     for bi, (sig, _am, _els) in conds.items():
-        if bi in lt and sig not in loops:
-            loops.append(sig)
+        if bi not in lt or sig in loops:
+            continue
+        if sig[0] == "branch" and not sig[2]:
+            continue  # a test of nothing nameable (a std call's verdict): too vague to follow through a refactoring
+        if not all(reach(fn, [t2], ok_rets_l, (), dead) is not None for t2 in set(_am.values()) | {_els}):
+            continue  # one outcome only rejects (`if let Err(e) = read(..) { return Err(e) }` inside a loop): a rejection, not the loop's control
+        loops.append(sig)
     loops.sort(key=lambda g: json.dumps(g))
     # silent: conditions a state-changing call is control dependent on whose other outcome carries on normally (not a rejection)
     silent = {}
@@ -718,6 +747,19 @@ def scope(F, prop_record, depth=2, want_named=False):
             out.add(k)
         if base in named:
             named.add(k)
+    if want_named == "adjacent":
+        # functions of the anchor files that directly call a named function (and their closures): the call site of a mechanism is part of it
+        # (`pipe::process_block_header` decides `force_rollback` inside the closure it hands to `header_extending`)
+        named_bases = {re.sub(r"(::\{closure#\d+\})+$", "", k) for k in named}
+        adj = set()
+        for nb in named_bases:
+            for name in (nb, strip_impl(nb)):
+                for (c, _bi) in F.callers.get(name, []):
+                    cb = re.sub(r"(::\{closure#\d+\})+$", "", c)
+                    if c in in_files and cb not in named_bases:
+                        adj.add(cb)
+        adjacent = {k for k in in_files if re.sub(r"(::\{closure#\d+\})+$", "", k) in adj}
+        return sorted(out | adjacent), named, adjacent
     if want_named:
         return sorted(out), named
     return sorted(out)
@@ -750,9 +792,9 @@ def generate(F, prop_record, named_elsewhere=()):
     """Baseline of one property. A function that the property reaches but does not name is left to the properties that do name it
     (`named_elsewhere`), so that a change is reported under the properties whose mechanism it touches."""
     out = {}
-    fns, named = scope(F, prop_record, want_named=True)
+    fns, named, adjacent = scope(F, prop_record, want_named="adjacent")
     for k in fns:
-        if k not in named and k in named_elsewhere:
+        if k not in named and k not in adjacent and k in named_elsewhere:
             continue
         s = summarize(F, k)
         if s["must"] or s["order"] or s["args"] or s["guards"] or s["assigns"] or s["ret"] or s["consts"] or s["rejects"] or s["each"]:
@@ -990,7 +1032,7 @@ def check(ctx, prop):
             ac, bc = _short_callee(a), _short_callee(bk)
             if (_is_ws_short(F, ac) and ac not in cur_names) or (_is_ws_short(F, bc) and bc not in cur_names):
                 continue  # one of the two no longer exists
-            targets = {bi for bi, t in F.calls(k) if _short_callee(call_key(fn, t, Exprs(fn))) == bc}
+            targets = {bi for bi, t in F.calls(k) if _short_callee(call_key(fn, t, exprs_for(F, k))) == bc}
             if not targets:
                 continue  # the state change is gone from this function (vacuous; a dropped state change is a `must` matter)
             rx = pat("re:(?:^|::|<| )%s$" % re.escape(ac))
@@ -1014,7 +1056,7 @@ def check(ctx, prop):
             ac, bc = _short_callee(a), _short_callee(bk)
             if (_is_ws_short(F, ac) and ac not in cur_names) or (_is_ws_short(F, bc) and bc not in cur_names):
                 continue
-            tb = [(bi, t) for bi, t in F.calls(k) if _short_callee(call_key(fn, t, Exprs(fn))) == bc]
+            tb = [(bi, t) for bi, t in F.calls(k) if _short_callee(call_key(fn, t, exprs_for(F, k))) == bc]
             rx = pat("re:(?:^|::|<| )%s$" % re.escape(ac))
             cuts = []
             for bi, _how in ctx._call_blocks(k, rx, 2):
@@ -1117,8 +1159,18 @@ def check(ctx, prop):
                 continue  # the test is gone from this function (moved into a closure / helper, or removed: the guard facet's matter)
             if any(same(cg) for cg in cur.get("loops", [])):
                 continue
-            if any(same(cg) for x in closures + helpers for cg in cs.get(x).get("loops", [])):
+            def loose(cg):
+                # parameter paths and call origins do not carry over into a closure or an extracted helper
+                if cg[0] != g[0]:
+                    return False
+                a1 = {z for z in g1 if not (z.startswith("arg") or z.startswith("call:"))}
+                a2 = {z for z in g2 if not (z.startswith("arg") or z.startswith("call:"))}
+                return (a1 <= set(cg[1]) and a2 <= set(cg[2])) or (g[0] == "Eq" and a1 <= set(cg[2]) and a2 <= set(cg[1]))
+            if any(loose(cg) for x in closures + helpers for cg in cs.get(x).get("loops", [])):
                 continue
+            _cn2, base_names2 = ws_short_names(F)
+            if any(cs.get(x).get("loops") and short(x, 2) not in base_names2 for x in helpers):
+                continue  # the loop was extracted into a function the confirmed tree did not have: its body is held to nothing here
             bad += 1
             ctx.record("baseline-loop", "R9", k, "%s: the loop test %s(%s ; %s) still decides a loop" % (short(k, 2), g[0], ",".join(g[1])[:70], ",".join(g[2])[:70]), "violation", [where],
                        ["on the confirmed tree %s repeated a loop body for as long as %s(%s ; %s) held; the test is still made but no longer re-evaluated after the body "
@@ -1170,7 +1222,8 @@ def check(ctx, prop):
                     continue
                 def _weighty(cset):
                     return any(a_.startswith("call:") or a_.startswith("field:") for a_ in cset)
-                if any(core <= bc_ for bc_ in base_cores):
+                own_cores = [_core(F, bs) for sk, conds in b.get("silent", {}).items() if _short_callee(sk) == _short_callee(bk) for (bs, _a) in conds]
+                if any(core <= bc_ for bc_ in own_cores):
                     continue
                 # a confirmed condition may have been refined (`a` -> `a && b` evaluated as one test): one richer condition per confirmed one,
                 # and only when the confirmed condition itself is no longer there unchanged (otherwise the richer one is a new, separate test)
@@ -1184,9 +1237,8 @@ def check(ctx, prop):
                     continue
                 if any(core <= gc for gc in base_guard_cores if gc):
                     # the condition itself is a confirmed one; it now also governs this call only if the call sat under it before
-                    if any(core <= _core(F, bs) or _core(F, bs) <= core for conds in b.get("silent", {}).values() for (bs, _a) in conds):
-                        continue
-                    if _short_callee(bk) in {_short_callee(x) for x in b.get("silent", {})}:
+                    same_sink = [conds for sk, conds in b.get("silent", {}).items() if _short_callee(sk) == _short_callee(bk)]
+                    if any(core <= _core(F, bs) or _core(F, bs) <= core for conds in same_sink for (bs, _a) in conds):
                         continue
                 bad += 1
                 ctx.record("baseline-silent", "R9", k, "%s: %s is not skipped under a new condition" % (short(k, 2), bk), "violation", [where],
@@ -1344,7 +1396,7 @@ def _guard_in_helper(ctx, k, g, closures=()):
     F = ctx.F
     for x in [k] + list(closures):
         f = F.fns[x]
-        exf = Exprs(f)
+        exf = exprs_for(F, x)
         for cbi, t in F.calls(x):
             for gname in callee_names(t):
                 if gname not in F.fns or gname == x or F.fns[gname]["kind"] == "Closure":
